@@ -6,7 +6,7 @@
    IS the parent waker of that poll, so firing it wakes that parent directly. *)
 From Coq Require Import List Arith Bool.
 Import ListNotations.
-Require Import ScanFull InstsFull Pass ObligJoin ObligMZ ObligGroups FireTotal NonSel C11Groups PassProofs PassC01.
+Require Import ScanFull InstsFull Pass ObligJoin ObligMZ ObligGroups FireTotal GhostTrace NonSel C11Groups PassProofs PassC01.
 
 (* ---- selective strategy: in every state reached at or after a poll that returned Pending, a signalled child implies that the
         newest parent waker has been woken (for all sizes, child behaviours, histories of polls / wakes through any handle / drop / group ops) *)
@@ -22,6 +22,24 @@ Proof. exact (zip_C01 scs ops i). Qed.
 Theorem C01_group stream cap0 ops i : let w := group_world true stream cap0 ops in
   g_retpend _ w = true -> i < N _ g_slots w -> Sig _ g_awaited w i -> g_out _ w = true.
 Proof. exact (group_C01 stream cap0 ops i). Qed.
+
+
+(* ---- the same with the wake-up bookkeeping read off the TRACE: g is the fold (Model/ScanFull.v gfold) of the world's own trace, which recomputes
+        "returned Pending" (t_ret), "polled" (t_polled), "fired since its last poll began" (t_fired) and "the parent was woken since the poll
+        began" (t_out) from the events alone; which slots are still awaited is the model's state *)
+Theorem C01_join_trace tuple tryj scs ops i : let w := join_world true tryj tuple scs ops in let g := gfold (ginit (length scs)) (tr _ w) in
+  t_ret g = true -> i < N _ j_slots w -> aw _ j_awaited w i = true -> t_polled g i = true -> t_fired g i = true -> t_out g = true.
+Proof. exact (join_C01_trace tuple tryj scs ops i). Qed.
+Theorem C01_merge_trace scs ops i : let w := merge_world true scs ops in let g := gfold (ginit (length scs)) (tr _ w) in
+  t_ret g = true -> i < N _ m_n w -> aw _ m_awaited w i = true -> t_polled g i = true -> t_fired g i = true -> t_out g = true.
+Proof. exact (merge_C01_trace scs ops i). Qed.
+Theorem C01_zip_trace scs ops i : let w := zip_world true scs ops in let g := gfold (ginit (length scs)) (tr _ w) in
+  t_ret g = true -> i < N _ z_n w -> aw _ z_awaited w i = true -> t_polled g i = true -> t_fired g i = true -> t_out g = true.
+Proof. exact (zip_C01_trace scs ops i). Qed.
+Theorem C01_group_trace stream cap0 ops i : let w := group_world true stream cap0 ops in let g := gfold (ginit 0) (tr _ w) in
+  t_ret g = true -> i < N _ g_slots w -> aw _ g_awaited w i = true -> t_polled g i = true -> t_fired g i = true -> t_out g = true.
+Proof. exact (group_C01_trace stream cap0 ops i). Qed.
+Print Assumptions C01_join_trace. Print Assumptions C01_merge_trace. Print Assumptions C01_zip_trace. Print Assumptions C01_group_trace.
 
 (* ---- quiescence: if the last poll returned Pending, nothing was inserted since, and no wake-up of the newest parent waker is
         outstanding, then every awaited child has been polled and none of its wakers has fired since: the combinator is only ever blocked
